@@ -54,6 +54,21 @@ type c03gen struct{ r *vlib.Rng }
 
 var c03Names = []string{"a", "b", "a", "interface", "config", "name", "if-name", "x_1", "unit", "é1", "nc:edit", "a.b"}
 
+// c03Proto: the protocol's own vocabulary (caller content may use any of it as a data node name),
+// names that merely begin or end with such a word, and prefixed forms.
+var c03Proto = []string{"filter", "rpc", "rpc-reply", "config", "data", "source", "target", "get", "get-config", "edit-config",
+	"hello", "capabilities", "capability", "ok", "rpc-error", "with-defaults", "running", "candidate", "url",
+	"filters", "filter-list", "xfilter", "filter_", "rpcs", "subconfig", "configs", "targets",
+	"nc:filter", "nc:config", "nc:rpc", "nc:data", "nc:get-config", "pf:filter", "pf:config", "x:rpc-error"}
+
+// name draws an element name: mostly the plain alphabet, a third of the time protocol vocabulary.
+func (g c03gen) name() string {
+	if g.r.Chance(1, 3) {
+		return g.r.Pick(c03Proto)
+	}
+	return g.r.Pick(c03Names)
+}
+
 func (g c03gen) ws() string {
 	return g.r.Pick([]string{" ", "\n", "\t", "  ", "\r\n", " \n  "})
 }
@@ -79,7 +94,7 @@ func (g c03gen) text(n int) string {
 		case 7:
 			b.WriteString(" / ")
 		case 8:
-			b.WriteString("𝔘𝔫𝔦")
+			b.WriteString(g.r.Pick([]string{"𝔘𝔫𝔦", "&#x41;&#65;", "&quot;&apos;", "&amp;lt;filter&amp;gt;", "filter"}))
 		default:
 			b.WriteString(string(g.r.Bytes(g.r.Range(1, 12), []byte("abcxyz 0123456789.-_:#"))))
 		}
@@ -91,6 +106,8 @@ func (g c03gen) attrs(name string) string {
 	var b strings.Builder
 	if strings.HasPrefix(name, "nc:") {
 		b.WriteString(` xmlns:nc="` + c03BaseNS + `"`)
+	} else if i := strings.IndexByte(name, ':'); i > 0 {
+		b.WriteString(` xmlns:` + name[:i] + `="urn:vendor:` + name[:i] + `"`)
 	}
 	n := 0
 	switch g.r.Intn(10) {
@@ -102,7 +119,7 @@ func (g c03gen) attrs(name string) string {
 	}
 	seen := map[int]bool{}
 	for i := 0; i < n; i++ {
-		k := g.r.Intn(11)
+		k := g.r.Intn(16)
 		if seen[k] {
 			continue
 		}
@@ -117,7 +134,7 @@ func (g c03gen) attrs(name string) string {
 		case 1:
 			b.WriteString(sep + `name="ge-0/0/0"`)
 		case 2:
-			b.WriteString(sep + `xmlns="urn:example:ns"`)
+			b.WriteString(sep + `xmlns="` + g.r.Pick([]string{"urn:example:ns", "urn:vendor:packet-filter", c03BaseNS, "urn:ietf:params:xml:ns:yang:ietf-netconf-with-defaults"}) + `"`)
 		case 3:
 			b.WriteString(sep + `d="é✓"`)
 		case 4:
@@ -132,6 +149,16 @@ func (g c03gen) attrs(name string) string {
 			b.WriteString(sep + `operation="delete"`)
 		case 9:
 			b.WriteString(sep + `g=">"`)
+		case 11:
+			b.WriteString(sep + `type="` + g.r.Pick([]string{"subtree", "xpath", "other"}) + `"`)
+		case 12:
+			b.WriteString(sep + `select="/a/b[c='d']"`)
+		case 13:
+			b.WriteString(sep + `message-id="` + strconv.Itoa(g.r.Intn(1000)) + `"`)
+		case 14:
+			b.WriteString(sep + `v="&quot;x&apos; &#x41;&#65; &amp;amp;"`)
+		case 15:
+			b.WriteString(sep + `filter="filter"`)
 		default:
 			b.WriteString(sep + `k="v` + strconv.Itoa(g.r.Intn(100)) + `"`)
 		}
@@ -141,7 +168,7 @@ func (g c03gen) attrs(name string) string {
 
 // elem renders one well-formed element using roughly `budget` bytes.
 func (g c03gen) elem(depth, budget int, exotic bool) string {
-	name := g.r.Pick(c03Names)
+	name := g.name()
 	at := g.attrs(name)
 	open := "<" + name + at
 	if g.r.Chance(1, 10) {
@@ -248,13 +275,15 @@ func (g c03gen) size(small bool) int {
 }
 
 func (g c03gen) datastore() string {
-	return g.r.Pick([]string{"running", "candidate", "startup", "running", "candidate", "startup", "url", "my-store", "ds_1", "é"})
+	return g.r.Pick([]string{"running", "candidate", "startup", "running", "candidate", "startup", "url", "my-store", "ds_1", "é",
+		"config", "data", "filter", "source", "target", "rpc", "get-config"})
 }
 
 func (g c03gen) plain(n int) string {
 	var b strings.Builder
 	for b.Len() < n {
-		b.WriteString(g.r.Pick([]string{"/interfaces/interface[name=\"ge-0/0/0\"]", "/état", "//a[b<3 and c>'x']", "&", " ", "é✓", "\t", "\n", "a", "/config", "'", "]]>"}))
+		b.WriteString(g.r.Pick([]string{"/interfaces/interface[name=\"ge-0/0/0\"]", "/état", "//a[b<3 and c>'x']", "&", " ", "é✓", "\t", "\n", "a", "/config", "'", "]]>",
+			"/filter", "//nc:rpc/data", "<filter>", "</filter>", "rpc-reply", "&amp;", "&#x41;", "\"", "/target/source"}))
 	}
 	return b.String()
 }
@@ -281,6 +310,7 @@ type c03op struct {
 	wantErr    bool   // the call must fail before anything is written
 	errClass   string // … with this error class
 	failOpt    bool   // a caller-supplied option that returns an error
+	shape      string // shape of the caller's XML fragment (evidence distribution)
 }
 
 // c03kinds: operation kinds with their weights (every kind the API offers; edit-config and get-config
@@ -297,7 +327,52 @@ func (g c03gen) op(small, exoticOK bool) c03op {
 		}
 		// comments / CDATA / processing instructions only where the rewrite is off: inside them
 		// bytes.ReplaceAll also rewrites textual copies of a matched element (see c03direct)
-		return g.xmlDoc(g.size(small), exoticOK && g.r.Chance(1, 12))
+		exotic := exoticOK && g.r.Chance(1, 6)
+		var doc string
+		if g.r.Chance(1, 4) {
+			// ONE top-level data node named like a protocol element -- half of the time like the very
+			// element the library wraps this fragment in (a subtree filter whose data node is called
+			// `filter`, a configuration whose root is `config`, an rpc body that is an `rpc`)
+			name := g.r.Pick(c03Proto)
+			o.shape = "one top-level element with a protocol name"
+			if g.r.Bool() {
+				own := map[string]string{"get": "filter", "get-config": "filter", "edit-config": "config", "rpc": "rpc"}[o.kind]
+				if own != "" {
+					name = g.r.Pick([]string{own, own, own, "nc:" + own, "pf:" + own})
+					o.shape = "one top-level element named like the wrapping element"
+				}
+			}
+			open := "<" + name + g.attrs(name) + g.r.Pick([]string{"", "", "", " ", "\n"})
+			switch g.r.Intn(5) {
+			case 0:
+				doc = open + "/>"
+			case 1:
+				doc = open + "></" + name + ">"
+			default:
+				doc = open + ">" + g.xmlDoc(g.size(true)/2+1, exotic) + "</" + name + ">"
+			}
+		} else {
+			doc = g.xmlDoc(g.size(small), exotic)
+			o.shape = "element sequence"
+		}
+		if exotic {
+			o.shape += " +comments/CDATA/PI"
+		}
+		if exotic && g.r.Chance(1, 3) {
+			doc = g.r.Pick([]string{"<!-- filter -->", "<?pi filter?>", "<!--<filter>-->"}) + doc
+		}
+		if exotic && g.r.Chance(1, 3) {
+			doc += g.r.Pick([]string{"<!-- </filter> -->", "<?pi x?>", "<![CDATA[]]>"})
+		}
+		if g.r.Chance(1, 4) {
+			doc = g.ws() + doc
+			o.shape += " +leading-ws"
+		}
+		if g.r.Chance(1, 4) {
+			doc += g.ws()
+			o.shape += " +trailing-ws"
+		}
+		return doc
 	}
 	// filterVariant: 0 none, 1 subtree (type left default), 2 subtree (type set), 3 xpath,
 	// 4 subtree set after xpath, 5 xpath set after subtree
@@ -1345,6 +1420,9 @@ func c03sessions(c *ctx, sess []c03sessCase) {
 			inputs = append(inputs, in)
 			res.Count("op:" + op.kind)
 			res.Count("variant:" + op.kind + ":" + op.variant)
+			if op.shape != "" {
+				res.Count("fragment:" + op.shape)
+			}
 			if op.stray != 0 {
 				res.Count("op-with-stray-options:" + op.kind)
 			}
@@ -1511,6 +1589,38 @@ func c03sessions(c *ctx, sess []c03sessCase) {
 				idIdx = append(idIdx, key{i, n})
 				n++
 			}
+		}
+	}
+	// 4a. the element that carries a caller fragment, as the model embeds it (filter_content_verbatim,
+	// config_content_verbatim), must be in the request without options byte for byte
+	var embLines []string
+	var embIdx []key
+	for i, sc := range sess {
+		if !runs[i].ok {
+			continue
+		}
+		for k := range sc.ops {
+			op := &sc.ops[k]
+			if k >= len(runs[i].ref.inputs) || runs[i].ref.inputs[k] == nil {
+				continue
+			}
+			switch {
+			case op.kind == "edit-config":
+				embLines = append(embLines, "c03 embed edit "+vlib.Hex([]byte(op.tgt))+" "+vlib.Hex([]byte(op.config)))
+				embIdx = append(embIdx, key{i, k})
+			case (op.kind == "get" || op.kind == "get-config") && op.filter != "" && op.ftype != "xpath":
+				embLines = append(embLines, "c03 embed subtree "+vlib.Hex([]byte(op.filter)))
+				embIdx = append(embIdx, key{i, k})
+			}
+		}
+	}
+	embAns := c.ask(embLines)
+	for q, kk := range embIdx {
+		want, _ := vlib.UnHex(embAns[q])
+		op := &sess[kk.s].ops[kk.k]
+		res.Count("embedding-checked:" + op.kind)
+		if !bytes.Contains(runs[kk.s].ref.inputs[kk.k], want) {
+			res.Fail("oracle", sess[kk.s].line, fmt.Sprintf("request %d (%s): the request does not contain the element that embeds the caller's XML verbatim, %s; request: %s", kk.k, op.describe(), c03clip(string(want), 200), c03clip(string(runs[kk.s].ref.inputs[kk.k]), 400)), "payload-altered")
 		}
 	}
 	ans = c.ask(append(append([]string{}, chk...), idLines...))
